@@ -75,6 +75,9 @@ LETTERS = {
                                  'mailbox': 'Missing'}]),
     'move': ('select', [{'kind': 'move', 'set': '1', 'mailbox': 'Other'}]),
     'idle': ('select', [{'kind': 'idle'}, {'kind': 'done'}]),
+    # IDLE ended by something that is not DONE: answered BAD, still selected
+    'idle_garbage': ('select', [{'kind': 'idle'},
+                                {'kind': 'done', 'line': 'NOOP'}]),
 }
 NAMES = list(LETTERS)
 # interference: another session of the same user changes the namespace under
@@ -443,6 +446,14 @@ class C05(Profile):
                     yield make_case(start, [ext, name, 'close'], False)
                     yield make_case(start, [ext, 'ext_create_other', name],
                                     False)
+        # a refused IDLE, a change of selection, a change of the mailbox
+        # that was idled on by someone else, then every letter
+        for start in ('selected', 'examined'):
+            for mover in ('close', 'select_other', 'examine_inbox',
+                          'select_missing'):
+                for name in NAMES:
+                    yield make_case(start, ['idle_garbage', mover,
+                                            'ext_append_inbox', name], False)
         if tier == 'thorough':
             for prog in itertools.product(NAMES, NAMES, NAMES):
                 yield make_case('nonauth', list(prog), False)
